@@ -3,6 +3,7 @@ mod c01;
 mod c03;
 mod c04;
 mod c05;
+mod c06;
 mod c10;
 mod c16;
 mod c17;
@@ -92,6 +93,7 @@ fn main() {
         "C03" => c03::run(tier),
         "C04" => c04::run(tier),
         "C05" => c05::run(tier),
+        "C06" => c06::run(tier),
         "C10" => c10::run(tier),
         "C16" => c16::run(tier),
         "C17" => c17::run(tier),
